@@ -45,7 +45,9 @@ Record prims := {
   b32_to_base32   : bytes -> list N;              (* ToBase32: 8 -> 5 bit regrouping *)
   b32_from_base32 : list N -> option bytes;       (* FromBase32: fails on bad padding *)
   b32_encode      : text -> list N -> option text;(* bech32::encode(hrp, u5 data) *)
-  b32_decode      : text -> option (text * list N)(* bech32::decode *)
+  b32_decode      : text -> option (text * list N);(* bech32::decode *)
+  (* cryptoxide blake2b, 28-byte digest, no key: an UNINTERPRETED function (no law beyond its output size is assumed or needed) *)
+  blake2b224      : bytes -> bytes
 }.
 
 (* ---- laws (assumptions about the external crates; each is a premise wherever it is used) ---- *)
@@ -62,6 +64,8 @@ Definition law_shapes : Prop :=
   (forall k, wfb 96 k -> wfb 64 (xprv_public P k)) /\
   (forall k i, wfb 96 k -> wfb 96 (xprv_derive P k i)) /\
   (forall p i q, wfb 64 p -> xpub_derive P p i = Some q -> wfb 64 q).
+
+Definition law_hash_shape : Prop := forall b, wfb 28 (blake2b224 P b).
 
 (* Ed25519: a signature made with a key verifies under the public key of that key *)
 Definition law_sign_normal : Prop :=
